@@ -80,8 +80,11 @@ def in_fork(fn, *args, timeout=60.0, **kw):
     HarnessError (the functions run here catch what belongs to cm-colors themselves).
     """
     r, w = os.pipe()
-    sys.stdout.flush()
-    sys.stderr.flush()
+    for st in (sys.stdout, sys.stderr):
+        try:
+            st.flush()
+        except Exception:
+            pass
     pid = os.fork()
     if pid == 0:
         code = 0
